@@ -151,19 +151,22 @@ MT = (0, 1, 2 ** 31 - 1, 2 ** 31, 2 ** 32 - 1)
 
 
 @ob('O20.2', 'literal metadata round trip: importing the export gives the same content octets, format, file name, time, compression setting and signatures',
-    'content of 0..3 symbolic octets; format from {b,t,u}; file name from {"", "_CONSOLE", 1..2 symbolic ASCII characters}; time from 5 boundary values; 0..1 signatures',
-    cond_timeout={'q': 280, 't': 900}, partitions=[['fi == %d' % i] for i in range(3)])
+    'content of 0..3 symbolic octets; format from {b,t,u,l,1,m} (the RFC 4880 / RFC 1991 markers and the MIME marker of later drafts); file name from {"", "_CONSOLE", 1..2 symbolic ASCII characters}; time from 5 boundary values; 0..1 signatures',
+    cond_timeout={'q': 280, 't': 900}, partitions=[['fi == %d' % i] for i in range(6)])
 def metadata_roundtrip(content: bytes, fi: int, fsel: int, fname: str, mi: int, signed: bool) -> bool:
     """
     pre: len(content) <= 3
-    pre: 0 <= fi < 3
+    pre: 0 <= fi < 6
     pre: 0 <= fsel < 3
     pre: 1 <= len(fname) <= 2
     pre: all(32 <= ord(ch) < 127 for ch in fname)
     pre: 0 <= mi < 5
     post: _
     """
-    fmt = ('b', 't', 'u')[fi]
+    fmt = 'b'
+    for k, v in enumerate(('b', 't', 'u', 'l', '1', 'm')):
+        if fi == k:
+            fmt = v
     if fmt != 'b':
         for b in content:
             if b >= 128:
@@ -302,7 +305,7 @@ def encrypted_grammar(ci: int, signed: bool, content: bytes) -> bool:
 
 SANITY = ['grammar(0, b"ab", 0, 0, 0, 0, 0, 0, 0, 0, 0)', 'grammar(1, b"", 2, 0, 0, 1, 0, 0, 1, 0, 0)', 'grammar(2, b"x", 0, 1, 0, 0, 1, 0, 0, 1, 0)',
           'grammar(3, b"x", 0, 1, 2, 0, 1, 2, 0, 1, 2)', 'grammar(3, b"x", 2, 0, 1, 2, 2, 0, 1, 1, 1)',
-          'metadata_roundtrip(b"abc", 0, 0, "f", 0, False)', 'metadata_roundtrip(b"a\\n", 1, 1, "f", 3, True)', 'metadata_roundtrip(b"", 2, 2, "a.", 4, True)',
+          'metadata_roundtrip(b"abc", 0, 0, "f", 0, False)', 'metadata_roundtrip(b"ab", 3, 0, "f", 1, False)', 'metadata_roundtrip(b"ab", 4, 2, "g", 1, True)', 'metadata_roundtrip(b"a", 5, 0, "f", 1, False)', 'metadata_roundtrip(b"a\\n", 1, 1, "f", 3, True)', 'metadata_roundtrip(b"", 2, 2, "a.", 4, True)',
           'metadata_roundtrip(b"\\xff", 0, 2, "zz", 2, False)', 'compression_wrapper(0, 0, b"a")', 'compression_wrapper(1, 2, b"ab")', 'compression_wrapper(2, 1, b"")',
           'foreign_literal(0, b"abc")', 'foreign_literal(1, b"abcd")', 'foreign_literal(2, b"abcde")', 'foreign_literal(3, b"abc")', 'foreign_literal(4, b"abcde")', 'foreign_literal(5, b"abc")',
           'encrypted_grammar(0, False, b"a")', 'encrypted_grammar(2, True, b"ab")']
